@@ -1,7 +1,7 @@
 (* C03 - rendering a score yields exactly its sounding notes at the right times.
    Statements only; proofs in Proofs/RenderProofs.v.  Time is in integer ticks of arbitrary size
    (every rational score is such a score after multiplying by the LCM of its denominators). *)
-From ML Require Import Model.Types gen.Tables Model.Pitch Model.Rel Model.Render Spec.RenderSpec Proofs.RenderProofs Proofs.EventsProofs Proofs.EventsGlobal.
+From ML Require Import Model.Types gen.Tables Model.Pitch Model.Rel Model.Render Spec.RenderSpec Proofs.RenderProofs Proofs.EventsProofs Proofs.EventsGlobal Proofs.EventsSorted.
 From Coq Require Import QArith Permutation.
 Open Scope Z_scope.
 Open Scope list_scope.
@@ -61,6 +61,11 @@ Proof. exact to_events_track. Qed.
 (* a sub-sequence already in order is left in order by the stable sort (what makes the theorem above go through) *)
 Theorem C03_stable_sort_keeps_tracks : forall (P : row -> bool) l, sortedk r_off (filter P l) -> filter P (sort_key r_off l) = filter P l.
 Proof. exact (sort_keeps_sorted_subsequence r_off). Qed.
+
+(* ... and the list handed back is in time order: sorted by onset (in seconds), for every matrix, tempo and resolution *)
+Theorem C03_events_sorted : forall sc tpq tempo rows,
+  Sorting.Sorted.Sorted (fun a b => (e_off a <= e_off b)%Q) (matrix_to_events sc tpq tempo rows).
+Proof. exact to_events_sorted. Qed.
 
 (* the code as it was before the repair (a continuation's length added in quarter notes to a duration in seconds) is refuted
    at tempo 120: a half note written s0 + l lasts 1 s in the repaired model, 1.5 s in the old one *)
